@@ -38,6 +38,7 @@ type typeFacts struct {
 	mapRange   mapRanges
 	chanRange  map[string]bool // range over a channel, keyed by the position of `for`
 	chanLenCap map[string]bool // len()/cap() of a channel, keyed by the position of `(`
+	pkgs       map[string]*types.Package
 }
 
 type modImporter struct {
@@ -157,6 +158,7 @@ func findMapRanges(root string, pkgDirs []string) (*typeFacts, error) {
 			return nil, fmt.Errorf("type-check %s: %v %v", path, err, m.errs)
 		}
 	}
+	facts.pkgs = m.pkgs
 	return facts, nil
 }
 
